@@ -246,6 +246,51 @@ def gen(shared):
     # ---------------- next / previous
     out += _walk(c, tree, "next", wd)
     out += _walk(c, tree, "previous", wd)
+    # ---------------- _first_of_month / _last_of_month (the month table is the native primitive _mdc)
+    for nm in ("_first_of_month", "_last_of_month"):
+        m = MdcRw()
+        fn = m.run(_dfn(tree, "Date." + nm))
+        if [a.arg for a in fn.args.args] != ["self", "day_of_week"] or m.used != 3:
+            raise P.Unsupported(f"Date.{nm}: unexpected signature / uses of the month table")
+        fn.args.defaults = []
+        ast.fix_missing_locations(fn)
+        out.append(_t(c, fn, "wglue_Date" + nm, {"day_of_week": OZ}, f"translated from src/pendulum/date.py :: Date.{nm}"))
+        c.kwmethods[(nm, GD)] = ("wglue_Date" + nm, ["day_of_week"], {}, [OZ], GD, "result")
+    for nm in ("_first_of_quarter", "_last_of_quarter", "_first_of_year", "_last_of_year"):
+        fn = _dfn(tree, "Date." + nm)
+        if [a.arg for a in fn.args.args] != ["self", "day_of_week"]:
+            raise P.Unsupported(f"Date.{nm}: unexpected signature")
+        fn.args.defaults = []
+        out.append(_t(c, fn, "wglue_Date" + nm, {"day_of_week": OZ}, f"translated from src/pendulum/date.py :: Date.{nm}"))
+        c.kwmethods[(nm, GD)] = ("wglue_Date" + nm, ["day_of_week"], {}, [OZ], GD, "result")
+    # ---------------- _nth_of_*
+    c.list_fragment = True
+    for nm in ("_nth_of_month", "_nth_of_quarter", "_nth_of_year"):
+        fr = FormatRw("YYYY-MM")
+        fn = fr.visit(_dfn(tree, "Date." + nm))
+        if fr.used != (2 if nm == "_nth_of_month" else 0) or ".format(" in ast.unparse(fn):
+            raise P.Unsupported(f"Date.{nm}: unexpected uses of format")
+        if [a.arg for a in fn.args.args] != ["self", "nth", "day_of_week"] or fn.args.defaults:
+            raise P.Unsupported(f"Date.{nm}: unexpected signature")
+        ast.fix_missing_locations(fn)
+        out.append(_t(c, fn, "wglue_Date" + nm, {"nth": Z, "day_of_week": Z}, f"translated from src/pendulum/date.py :: Date.{nm}", want=OGD, ret_decl=OGD))
+    # ---------------- C12: Date._start_of_* / _end_of_* (day, month, year, decade, century; the week reads the process-wide state)
+    for unit in ("day", "month", "year", "decade", "century"):
+        for side in ("start", "end"):
+            nm = f"_{side}_of_{unit}"
+            fn = _dfn(tree, "Date." + nm)
+            if [a.arg for a in fn.args.args] != ["self"]:
+                raise P.Unsupported(f"Date.{nm}: unexpected signature")
+            out.append(_t(c, fn, "wglue_Date" + nm, {}, f"translated from src/pendulum/date.py :: Date.{nm}"))
+            c.kwmethods[(nm, GD)] = ("wglue_Date" + nm, [], {}, [], GD, "result")
+    for nm, state in (("_start_of_week", "week_starts_at"), ("_end_of_week", "week_ends_at")):
+        st = S.StateRw()
+        fn = st.visit(_dfn(tree, "Date." + nm))
+        if st.used != {state} or [a.arg for a in fn.args.args] != ["self"]:
+            raise P.Unsupported(f"Date.{nm}: does not read pendulum._{state.upper()} only: {st.used}")
+        fn.args.args.append(ast.arg(arg=state))
+        ast.fix_missing_locations(fn)
+        out.append(_t(c, fn, "wglue_Date" + nm, {state: Z}, f"translated from src/pendulum/date.py :: Date.{nm} (pendulum._{state.upper()} is the parameter {state})"))
     return "\n".join(out) + "\n"
 
 
